@@ -9,6 +9,7 @@ From RtrV Require Import Base.CSem Gen.Generated Rtr.RtrModel Rtr.RelFrame Rtr.R
 From RtrV Require Rtr.RecvExamples.   (* concrete instances *)
 From RtrV Require Import Base.Mem Gen.GeneratedMem Rtr.CheckSizeTie Rtr.PrefixValidTie.
 From RtrV Require Import Base.MemW Gen.GeneratedMemW Rtr.FooterTie.
+From RtrV Require Gen.GeneratedFsm3 Rtr.FsmTie Rtr.FsmTie3.
 Local Open Scope Z_scope.
 
 (* ---- (1) termination: all model functions are structural recursions (on the script, or on explicit fuel);
@@ -223,6 +224,37 @@ Example C04_footer_store_needs_the_check := footer_needs_check_1.
 Example C04_footer_translator_clean : memw_translator_problems = [].
 Proof. exact footer_translator_clean. Qed.
 
+(* rtr_receive_pdu itself, translated from /repo on every run (effect mode, stage 3: Gen/GeneratedFsm3.v - the local header struct and
+   the receive buffer as memory objects, tr_recv_all writing into them, memcpy, the already translated header / footer conversions and
+   size check reused, the six `goto error` each followed by the error block).  PARTIAL tie (Rtr/FsmTie3.v):
+     proved for every world:   the two paths that end before a header has been read (socket shut down; tr_recv_all fails with a
+                               negative code: the whole transport part of the error label) equal the model's receive_pdu;
+     by evaluation only (a TEST of the translated code against the model inside Coq, not a theorem): 41 closed scripts covering every
+                               PDU type, split delivery, the version rules, every length / size / type rejection with the Error Report
+                               that goes out, every transport outcome in header and payload phase - result code, final world with its
+                               trace, socket fields and, on success, all 3248 bytes of the buffer (= footer_host (header_host p)).
+   Not proved for arbitrary worlds: length checks, version logic, payload phase, size check, footer conversion, Error Reports.
+   A difference found: a transport that returns a POSITIVE error code is taken for success by the C (recv_positive_error_code_differs);
+   the mock and every real transport return negative codes. *)
+Theorem C04_receive_pdu_translated_partial : forall fuel m len t w,
+  (c_RTR_MAX_PDU_LEN <= len)%Z ->
+  (st (sk w) = c_RTR_SHUTDOWN ->
+   Rtr.FsmTie3.interp3 fuel (Gen.GeneratedFsm3.rtr_receive_pdu_gen m (Some 0%Z) len t (Rtr.FsmTie.sock_store (sk w))) [] w =
+   Some (Rtr.FsmTie3.as_recv (fun _ => m) (receive_pdu t) w)) /\
+  (forall c w1, (8 <= zlen m)%Z -> (0 <= st (sk w) < 2^32)%Z -> st (sk w) <> c_RTR_SHUTDOWN ->
+   tr_recv_all 8 t w = Ok (inl c) w1 -> (c < 0)%Z ->
+   Rtr.FsmTie3.interp3 fuel (Gen.GeneratedFsm3.rtr_receive_pdu_gen m (Some 0%Z) len t (Rtr.FsmTie.sock_store (sk w))) [] w =
+   Some (Rtr.FsmTie3.as_recv (fun _ => m) (receive_pdu t) w)).
+Proof.
+  intros fuel m len t w Hl. split.
+  - intros Hs. exact (Rtr.FsmTie3.recv_shutdown fuel m len t w Hl Hs).
+  - intros c w1 Hm Hr Hn Ht Hc. exact (Rtr.FsmTie3.recv_header_fails fuel m len t w c w1 Hl Hm Hr Hn Ht Hc).
+Qed.
+
+(* the evaluation part, kept in the cone of this property so that a change of rtr_receive_pdu that the scripts exercise stops the build *)
+Example C04_receive_pdu_translation_tests :=
+  (Rtr.FsmTie3.recv_success, Rtr.FsmTie3.recv_versions, Rtr.FsmTie3.recv_rejects, Rtr.FsmTie3.recv_transport, Rtr.FsmTie3.no_translator_problems3).
+
 Print Assumptions C04_prefix_check_translated.
 Print Assumptions C04_stored_prefix_key_ok.
 Print Assumptions C04_check_size_translated.
@@ -255,3 +287,4 @@ Print Assumptions C04_footer_writes_inside.
 Print Assumptions C04_footer_translated.
 Print Assumptions C04_receive_path_inside.
 Print Assumptions C04_error_text_len_load_inside.
+Print Assumptions C04_receive_pdu_translated_partial.
